@@ -54,8 +54,12 @@ OPS = {"a": "arrive", "f": "flush", "F": "flush_all", "r": "read", "d": "drop_re
 RESULTS = ["consumed", "present", "unavailable", "ok", "eof", "err", "pending"]
 
 
-def required(prefixes=ALL_PREFIXES):
-    """Rule and marker names a caller should put into required_cov for these prefixes."""
+def required(prefixes=ALL_PREFIXES, r=None):
+    """Rule and marker names a caller should put into required_cov for these prefixes.  With a Result that holds
+    violations: none (the vacuity guard is for the verdict "held"; a broken rule ends the affected runs early --
+    after a panic there is nothing left to call -- and core.Result.finish looks at the coverage first)."""
+    if r is not None and r.violations:
+        return []
     return [x for x in RULES + MARKERS if x.startswith(tuple(prefixes))]
 
 
@@ -205,29 +209,23 @@ def _instances(tier):
             dict(tag="c6s3", cap=6, maxp=2, slots=3, depth=6, full=99)]
 
 
-def _compute(tier, seed):
-    """Everything, for all rules.  Returns a JSON-able dict (cached by `part`)."""
+def _empty():
+    return {"models": [], "scripts": 0, "distinct": 0, "traces": 0, "trace_lines": 0, "cov": {}, "violations": [],
+            "samples": [], "notes": {}}
+
+
+def _compute_mc(tier, workers):
+    """The bounded models and the replay of their cases (independent of the seed: nothing is drawn)."""
     thorough = tier == "thorough"
-    rundir = os.path.join(SCR, "run", f"{tier}_{seed}")
+    rundir = os.path.join(SCR, "run", f"mc_{tier}")
     shutil.rmtree(rundir, ignore_errors=True)
     os.makedirs(rundir, exist_ok=True)
-    out = {"models": [], "scripts": 0, "distinct": 0, "traces": 0, "trace_lines": 0, "cov": {}, "violations": [],
-           "samples": [], "notes": {}}
+    out = _empty()
     insts = _instances(tier)
-    nrec, per = (6, 60000) if thorough else (2, 9000)
-    pool = ThreadPoolExecutor(max_workers=len(insts) + nrec)
-
-    # ---- impl -> spec: recorded runs, judged by ReasmTrace (in the background)
-    def rec(i):
-        tp = os.path.join(rundir, f"rec{i}.ndjson")
-        _bin(["record", str(seed * 1000 + i), str(per), tp])
-        return core.tlc_trace(tp, spec="ReasmTrace", tag=f"ooq_rec_{tier}_{seed}_{i}", timeout=1500, xmx="4g")
-    rec_futs = [pool.submit(rec, i) for i in range(nrec)]
-
-    # ---- the bounded models
-    w = max(2, (core.NCPU - nrec) // len(insts))
     t0 = time.time()
-    mc_futs = [pool.submit(_mc, inst, rundir, min(w, 8), 3000 if thorough else 280) for inst in insts]
+    pool = ThreadPoolExecutor(max_workers=len(insts))
+    w = max(2, min(8, workers // len(insts)))
+    mc_futs = [pool.submit(_mc, inst, rundir, w, 3000 if thorough else 280) for inst in insts]
 
     # ---- spec -> impl: replay with exact equality
     by_op, by_res = {k: 0 for k in OPS}, {k: 0 for k in RESULTS}
@@ -239,16 +237,19 @@ def _compute(tier, seed):
         log(f"[REASM] MCReasm/{inst['tag']}: {res.get('states')} states, {n} cases in {res['wall_s']}s")
         ansp = os.path.join(rundir, inst["tag"] + ".answers.ndjson")
         _bin(["replay", str(inst["cap"]), str(inst["maxp"]), casesp, ansp], timeout=1800)
-        differing = []
+        differing, ndiff = [], 0
         k = 0
         seen = set()
+        picks = sorted({n // 3, n - 1})
         with open(casesp) as fc, open(ansp) as fa:
             for k, (c, a) in enumerate(zip(fc, fa), 1):
-                if c != a and len(differing) < 50:
-                    differing.append((c, a))
-                elif c != a:
-                    differing.append(None)
+                if c != a:
+                    ndiff += 1
+                    if len(differing) < 3:
+                        differing.append(c)
                 seen.add(hash(c))
+                if k - 1 in picks:
+                    out["samples"].append(_sample(inst, c, a))
                 # statistics for the vacuity guard: which calls / results the cases contain
                 i2 = c.rindex('],["')          # start of the expected answer
                 i1 = c.rindex('],["', 0, i2)   # start of the call
@@ -257,20 +258,18 @@ def _compute(tier, seed):
             if sum(1 for _ in fa) != 0 or k != n:
                 raise core.ToolError(f"replay answered a different number of cases than the {n} of {inst['tag']}")
         replay["cases"] += n
-        replay["differing"] += len(differing)
+        replay["differing"] += ndiff
         out["scripts"] += n
         out["distinct"] += len(seen)
-        if n:
-            with open(casesp) as fc, open(ansp) as fa:
-                pairs = list(zip(fc, fa))
-                for i in sorted({n // 3, n - 1}):
-                    out["samples"].append(_sample(inst, *pairs[i]))
-                del pairs
-        # cases whose answer differs: ReasmTrace names the broken clauses
-        for d in [d for d in differing if d][:3]:
-            case = json.loads(d[0])
-            script = _script_of_case(inst, case)
-            v, tp = _judge_script(script, f"diff_{tier}_{seed}_{judged}")
+        del seen
+        if not os.environ.get("OOQ_KEEP"):      # the case files are large; a violation keeps its own script
+            os.remove(ansp)
+            if not os.environ.get("OOQ_MC_FROM"):
+                os.remove(casesp)
+        # cases whose answer differs: re-run in full, ReasmTrace names the broken clauses
+        for c in differing:
+            script = _script_of_case(inst, json.loads(c))
+            v, tp = _judge_script(script, f"diff_{tier}_{judged}")
             judged += 1
             hits = _first_per_run(v)
             if hits:
@@ -279,28 +278,13 @@ def _compute(tier, seed):
             else:   # the answers differ although no clause fired on the full recording: still a disagreement
                 out["violations"].append([{"line": len(script["ops"]) + 1, "rule": "Reasm.ObsAgrees",
                                            "ctx": "replay", "ep": ""}, script, tp])
+    pool.shutdown()
     missing = [OPS[k] for k, c in by_op.items() if c == 0] + [k for k, c in by_res.items() if c == 0]
     if missing:
         raise core.ToolError(f"MCReasm never produced: {missing}")
     log(f"[REASM] models + replay: {replay['cases']} cases, {replay['differing']} differ, {time.time()-t0:.1f}s")
-
-    # ---- the recorded runs
-    for f in rec_futs:
-        v = f.result()
-        out["traces"] += v.get("runs", 0)
-        out["trace_lines"] += v.get("lines", 0)
-        out["scripts"] += v.get("runs", 0)
-        out["distinct"] += v.get("runs", 0)     # every run has its own seed-derived profile and values
-        for k, c in v.get("cov", {}).items():
-            out["cov"][k] = out["cov"].get(k, 0) + c
-        for x, script in _first_per_run(v):
-            out["violations"].append([x, script, v["trace"]])
-    pool.shutdown()
-    with open(os.path.join(rundir, "rec0.ndjson")) as f:
-        out["samples"].append({"recorded": [json.loads(next(f)) for _ in range(3)]})
     out["notes"] = {
         "replay": replay, "cases_by_call": {OPS[k]: c for k, c in by_op.items()}, "cases_by_result": by_res,
-        "recorded_runs": out["traces"], "recorded_lines": out["trace_lines"],
         "exhaustive": "every call sequence to depth " + ("8 (full alphabet to depth 6, reduced in steps 7-8)" if thorough else "6")
                       + " over: arrive(offset 0..slots and 4; 1 | 2 bytes | ST_FIN), flush, flush_all_before_close (after "
                         "which only reads / error / close / drop follow, as in the dispatcher), read(1 | 2 | 8), drop reader, "
@@ -310,20 +294,54 @@ def _compute(tier, seed):
     return out
 
 
-def _cache_key(tier, seed):
+def _compute_rec(tier, seed):
+    """impl -> spec: recorded seeded random runs, judged by ReasmTrace."""
+    rundir = os.path.join(SCR, "run", f"rec_{tier}_{seed}")
+    shutil.rmtree(rundir, ignore_errors=True)
+    os.makedirs(rundir, exist_ok=True)
+    out = _empty()
+    nrec, per = (6, 60000) if tier == "thorough" else (2, 9000)
+
+    def rec(i):
+        tp = os.path.join(rundir, f"rec{i}.ndjson")
+        _bin(["record", str(seed * 1000 + i), str(per), tp])
+        return core.tlc_trace(tp, spec="ReasmTrace", tag=f"ooq_rec_{tier}_{seed}_{i}", timeout=1500, xmx="4g")
+    t0 = time.time()
+    with ThreadPoolExecutor(max_workers=nrec) as pool:
+        verdicts = list(pool.map(rec, range(nrec)))
+    for v in verdicts:
+        out["traces"] += v.get("runs", 0)
+        out["trace_lines"] += v.get("lines", 0)
+        out["scripts"] += v.get("runs", 0)
+        out["distinct"] += v.get("runs", 0)     # every run has its own seed-derived profile and values
+        for k, c in v.get("cov", {}).items():
+            out["cov"][k] = out["cov"].get(k, 0) + c
+        for x, script in _first_per_run(v):
+            out["violations"].append([x, script, v["trace"]])
+    with open(os.path.join(rundir, "rec0.ndjson")) as f:
+        out["samples"].append({"recorded": [json.loads(next(f)) for _ in range(3)]})
+    if not os.environ.get("OOQ_KEEP"):      # keep the recordings that hold a broken rule only
+        for v in verdicts:
+            if not v.get("viol"):
+                os.remove(v["trace"])
+    out["notes"] = {"recorded_runs": out["traces"], "recorded_lines": out["trace_lines"]}
+    log(f"[REASM] recorded: {out['traces']} runs, {out['trace_lines']} lines, {len(out['violations'])} broken, {time.time()-t0:.1f}s")
+    return out
+
+
+def _cache_key(*what):
     h = hashlib.sha256()
     for p in [BIN, __file__] + [os.path.join(core.SPEC, f) for f in
                                 ("Reasm.tla", "MCReasm.tla", "MCReasm.cfg", "ReasmTrace.tla", "ReasmTrace.cfg")]:
         with open(p, "rb") as f:
             h.update(hashlib.sha256(f.read()).digest())
-    h.update(f"{tier}/{seed}".encode())
+    h.update("/".join(str(x) for x in what).encode())
     return h.hexdigest()[:24]
 
 
-def _outcome(tier, seed):
-    _build()
+def _cached(name, key, compute):
     os.makedirs(os.path.join(SCR, "cache"), exist_ok=True)
-    cp = os.path.join(SCR, "cache", _cache_key(tier, seed) + ".json")
+    cp = os.path.join(SCR, "cache", f"{name}_{key}.json")
     if os.path.exists(cp) and not os.environ.get("OOQ_NOCACHE"):
         try:
             out = json.load(open(cp))
@@ -332,9 +350,32 @@ def _outcome(tier, seed):
                 return out
         except (ValueError, KeyError):
             pass
-    out = _compute(tier, seed)
+    out = compute()
     with open(cp, "w") as f:
         json.dump(out, f)
+    return out
+
+
+def _outcome(tier, seed):
+    """Both halves, each cached under (binary, specifications, this file, tier[, seed])."""
+    _build()
+    nrec = 6 if tier == "thorough" else 2
+    with ThreadPoolExecutor(max_workers=2) as pool:
+        fr = pool.submit(_cached, "rec", _cache_key("rec", tier, seed), lambda: _compute_rec(tier, seed))
+        fm = pool.submit(_cached, "mc", _cache_key("mc", tier), lambda: _compute_mc(tier, max(4, core.NCPU - nrec)))
+        mc, rec = fm.result(), fr.result()
+    out = _empty()
+    for h in (mc, rec):
+        out["models"] += h["models"]
+        for k in ("scripts", "distinct", "traces", "trace_lines"):
+            out[k] += h[k]
+        for k, c in h["cov"].items():
+            out["cov"][k] = out["cov"].get(k, 0) + c
+        out["violations"] += h["violations"]
+        out["samples"] += h["samples"]
+    out["samples"] = mc["samples"][:2] + rec["samples"][:1]
+    out["notes"] = dict(mc["notes"], **{k: v for k, v in rec["notes"].items() if k != "cached"})
+    out["notes"]["cached"] = {"models_and_replay": bool(mc["notes"].get("cached")), "recorded": bool(rec["notes"].get("cached"))}
     return out
 
 
@@ -390,7 +431,7 @@ def run(tier, seed):
         rule_text="case = witnessing history of a reachable state of MCReasm + one call, with the specification's answer "
                   "(replayed on fresh real objects, compared for equality); distinct = distinct (history, call) pairs "
                   "+ recorded seeded random runs (each with its own receiver size, arrival pattern, reader, ending)",
-        required_cov=[] if r.violations else RULES + MARKERS)
+        required_cov=required(ALL_PREFIXES, r))
     return rc
 
 
